@@ -12,7 +12,7 @@ import (
 func init() {
 	register("C02", &ruleSet{
 		run:    runC02,
-		floors: map[string]int{"O1": 3, "O2": 6, "O3": 8, "O4": 1, "O5": 4, "O6": 1, "O7": 2, "O8": 4},
+		floors: map[string]int{"O1": 4, "O2": 6, "O3": 8, "O4": 1, "O5": 8, "O6": 1, "O7": 2, "O8": 3},
 		explain: "Decides the release/complete pairing on all CFG paths of all layers (timeout, cancel and refused hand-off are ordinary paths): (O1) each outcome of a " +
 			"capacity-owning listener decrements the limiter's in-flight gauge by exactly 1 and releases the strategy token exactly once on every path; (O2) each " +
 			"wrapping listener forwards OnX to the delegate's same-named method exactly once; (O3) typestate: every listener/token obtained from delegate.Acquire, " +
@@ -922,8 +922,25 @@ func c02Partitions(p *Prog, l *Ledger, locks *LockInfo) {
 				if okD && pair[0].(string) == "Acquire" {
 					// who may write the bin counter: the partition's own Acquire / Release (and constructors)
 					var wbad []string
+					// (the counter may live in a struct shared by several partition types: every partition's Acquire /
+					// Release, and what they call, may write it)
+					binOK := map[*ssa.Function]bool{}
 					for _, g := range p.Funcs {
-						if g == m || g == p.Method(pt, "Release") {
+						if p.InPkg(g, "strategy") && g.Signature.Recv() != nil && (g.Name() == "Acquire" || g.Name() == "Release") {
+							binOK[g] = true
+						}
+					}
+					for i := 0; i < 2; i++ {
+						for g := range binOK {
+							allInstrs(g, func(ins ssa.Instruction) {
+								if c := p.CallOf(ins); c != nil && c.Static != nil && p.InModule(c.Static) && p.InPkg(c.Static, "strategy") {
+									binOK[c.Static] = true
+								}
+							})
+						}
+					}
+					for _, g := range p.Funcs {
+						if binOK[g] {
 							continue
 						}
 						for _, a := range p.Accesses(g) {
